@@ -362,6 +362,60 @@ def is_dup(s):
     return (s.kind == "list" and not s.keys) or (s.kind == "leaf-list" and (not s.config or getattr(s, "in_op", False)))
 
 
+def scope_names(lst):
+    """names that must stay distinct among the schema children `lst` of one data parent (choices are transparent)"""
+    out = set()
+    for n in lst:
+        out.add(n.name)
+        if n.kind == "choice":
+            for cn, ns in n.cases:
+                out.add(cn)
+                out |= scope_names(ns)
+    return out
+
+
+def rename(n, new):
+    p = n.parent
+    if getattr(n, "is_key", False) and p is not None and p.kind == "list":
+        p.keys[p.keys.index(n.name)] = new
+    n.name = new
+
+
+def share_names(rng, lst, chain=(), prob=0.12):
+    """the generators hand out every name once per module; equal names in DIFFERENT scopes are legal and matter to name
+    lookup: a node named like one of its ancestors, output nodes named like input nodes of the same operation"""
+    names = scope_names(lst)
+
+    def data_nodes(ns):
+        for n in ns:
+            if n.kind == "choice":
+                for _, cs in n.cases:
+                    yield from data_nodes(cs)
+            else:
+                yield n
+    for n in data_nodes(lst):
+        if chain and rng.random() < prob:
+            c = rng.choice(chain)
+            if c not in names:
+                names.add(c)
+                rename(n, c)
+    for n in data_nodes(lst):
+        if n.kind in ("rpc", "action"):
+            share_names(rng, n.input, chain + (n.name,), prob)
+            onames = scope_names(n.output)
+            ins = [x.name for x in data_nodes(n.input)]
+            for x in data_nodes(n.output):
+                if ins and rng.random() < 0.4:
+                    c = rng.choice(ins)
+                    if c not in onames:
+                        onames.add(c)
+                        rename(x, c)
+            share_names(rng, n.output, chain + (n.name,), prob)
+        else:
+            for _, sub in schildren(n):
+                share_names(rng, sub, chain + (n.name,), prob)
+
+
 def gen_schema(rng, adv_names=True, two_modules=True):
     """-> (modules in load order, the generator of the first module)"""
     pool = yanggen.AdvNames() if adv_names else None
@@ -388,6 +442,7 @@ def gen_schema(rng, adv_names=True, two_modules=True):
     rpcs = [SOp(g.nm("rpc"), "rpc", g.op_nodes(), g.op_nodes()) for _ in range(rng.randrange(1, 3))]
     notifs = [SNotif(g.nm("ntf"), g.op_nodes()) for _ in range(rng.randrange(1, 3))]
     nodes.append(SLeaf("base-target", TString(length=(1, 5))))
+    share_names(rng, nodes + rpcs + notifs)
     m1 = PModule("m1", nodes + rpcs + notifs, identities=[("base-id", None)] + [(n, "base-id") for m, n in IDENTS if m == "m1"],
                  annotations=[])
     for n in swalk(m1.nodes):
@@ -415,7 +470,7 @@ def gen_schema(rng, adv_names=True, two_modules=True):
             g2.n = 1000 + 100 * len(augs)
             g2.targets = g.targets
             in_op = n.kind in ("rpc", "action", "notification") or getattr(n, "in_op", False)
-            cfg = True if in_op else ((lst[0].config if lst else False) if n.kind == "choice" else n.config)
+            cfg = True if in_op else (data_parent(n).config if n.kind == "choice" else n.config)
             if in_op:
                 new = g2.op_nodes(1, count=rng.randrange(1, 3))
             else:
@@ -772,11 +827,18 @@ class PathsOps(Oracle):
         docs = out.split(" | ")
         if info is None:
             # corpus / replay line: only the driver's own verdict
+            known = None
             for k, d in enumerate(docs):
                 f = d.split(":")
-                if len(f) >= 4 and f[3].startswith("BAD"):
+                if f[0] != "0":
+                    return (None, "document %d: document rejected (rc=%s)" % (k, f[0]))
+                if f[3] != "ok":
                     return (None, "document %d: %s" % (k, self.explain(f[3])))
-            return None
+                if int(f[2]):
+                    known = ("path-both-quotes", "document %d" % k)
+                elif len(f) > 5 and int(f[5]):
+                    known = known or ("xpath-noprefix-other-module", "document %d" % k)
+            return known
         if len(docs) != len(info):
             return (None, "driver protocol: %d documents, %d answers" % (len(info), len(docs)))
         known = None
